@@ -42,6 +42,12 @@ def check(ctx: Ctx) -> None:
     marker_parse_tolerant(ctx, "C03.R7")
     from .c08 import pin_needs_hint
     pin_needs_hint(ctx, "C03.R8")
+    # whatever a dying process leaves behind must be something a later collection understands: every file the library writes
+    # is the pointer, an in-flight marker or a fresh name (an orphan), and only the sanctioned owners delete
+    from .c09 import r1_fresh_names, r3 as c09_r3
+    r1_fresh_names(ctx, "C03.R9")
+    ctx.shared(c09_r3, "C09.R3", "C03.R10", "recovery / maintenance code deleting files on its own judgement can remove files of a "
+               "committed snapshot after a crash")
 
 
 def r5(ctx: Ctx) -> None:
